@@ -63,7 +63,55 @@ def start_le_last(e, lst):
     return False, None
 
 
+def table_writers(chk, repo):
+    """R20.7: the slot table is created (and every FMMU switched off) when
+    a terminal is initialised, before anything is mapped.  Whoever
+    re-creates it later wipes the claims of live mappings: their slots are
+    handed out again while the old owners still use - and later
+    deactivate - them."""
+    chk.doc("R20.7", "the slot table is re-created by initialize() only")
+    tc = repo.cls("ebpfcat.ethercat.Terminal")
+    writers = {}
+    for ci in [tc] + [c for c in repo.subclasses(tc.qualname) if c is not tc]:
+        for name, f in ci.methods.items():
+            if not isinstance(f, FUNC):
+                continue
+            for st in walk_no_nested(f):
+                if isinstance(st, ast.Assign) and any(
+                        is_self_attr(t, "fmmu_used") for t in st.targets):
+                    writers[(ci.qualname, name)] = (f, st)
+    chk.floor("R20.7", "functions that create the slot table", len(writers),
+              1)
+    allowed = {"initialize"} | {n for _, n in writers}
+    bad = []
+    for (cq, name), (f, st) in sorted(writers.items()):
+        if name == "initialize":
+            continue
+        # every caller of this writer is initialize() or another writer
+        for m in repo.production_modules():
+            for g in [x for x in ast.walk(m.tree) if isinstance(x, FUNC)]:
+                if g is f:
+                    continue
+                for c in calls_in(g):
+                    if isinstance(c.func, ast.Attribute) and \
+                            c.func.attr == name and g.name not in allowed:
+                        bad.append((c, f"{repo.qualname_of(g)} calls "
+                                       f"{name}()"))
+    chk.ob("R20.7", tc.qualname, "the slot table is re-created only on the "
+           "way through initialize()", not bad, bad[0][0] if bad else
+           tc.node, (bad[0][1] + ", which replaces fmmu_used while mappings "
+                     "may be live: their slots are claimed a second time")
+           if bad else f"writers: {sorted(n for _, n in writers)}")
+
+
 def run(chk, repo):
+    chk.doc("R20.6", "the claim discipline of map_fmmu is the only one")
+    override_rule(chk, repo, "R20.6", "ebpfcat.ethercat.Terminal",
+                  ["map_fmmu"], "the search for a free slot, the claim "
+                  "before the first await and the release on every exit "
+                  "established for Terminal.map_fmmu do not hold for a "
+                  "second implementation")
+    table_writers(chk, repo)
     chk.doc("R20.5", "the FMMU table is per terminal")
     per_instance_rule(chk, repo, "R20.5", ["ebpfcat.ethercat.Terminal"], "a claim on one terminal "
                       "occupies the same slot on every other terminal")
